@@ -45,15 +45,19 @@ def case_texts(rec: dict):
     form = rec["form"]
     if form == "direct":
         return text, p_names, plain, None
-    prefix = {"fromimport": "", "modattr": "lib.", "alias": "l."}[form]
+    prefix = {"fromimport": "", "modattr": "lib.", "alias": "l.", "fromalias": "", "star": ""}[form]
     tops = sorted({n.split(".")[0] for n in p_names})
-    head = {"fromimport": "from lib import " + ", ".join(tops) + "\n", "modattr": "import lib\n", "alias": "import lib as l\n"}[form]
+    if form == "star" and any(t_.startswith("_") for t_ in tops):
+        return text, p_names, plain, None          # a star import does not bring private names: falls back to the direct form
+    head = {"fromimport": "from lib import " + ", ".join(tops) + "\n", "modattr": "import lib\n", "alias": "import lib as l\n",
+            "fromalias": "from lib import " + ", ".join(f"{t_} as c_{t_.lstrip('_')}" for t_ in tops) + "\n", "star": "from lib import *\n"}[form]
     uses = []
     for n in p_names:
         u = how[n]
         top = n.split(".")[0]
-        if prefix:
-            u = re.sub(r"(?<![A-Za-z0-9_.])" + re.escape(top) + r"(?![A-Za-z0-9_])", prefix + top, u, count=1)
+        new_top = prefix + top if form != "fromalias" else "c_" + top.lstrip("_")
+        if new_top != top:
+            u = re.sub(r"(?<![A-Za-z0-9_.])" + re.escape(top) + r"(?![A-Za-z0-9_])", new_top, u)
         uses.append(u)
     client = head + "\n" + "\n".join(uses) + "\nprint('client done')\n"
     return text, p_names, plain, client
@@ -125,12 +129,12 @@ def main(argv=None) -> int:
     t = tier()
     rng = random.Random(seed())
     known = rep.known_entries()
-    kinds = '{"func", "async", "class", "var", "annvar", "augvar", "tuple", "chain", "method", "selfless", "static", "classmeth", "classattr"}'
+    kinds = '{"func", "async", "class", "var", "annvar", "augvar", "tuple", "chain", "method", "selfless", "static", "classmeth", "classattr", "initclass"}'
     styles = '{"snake", "camel", "upper", "private"}' if t == "quick" else '{"snake", "camel", "upper", "private", "pascal"}'
     flags = "{<<FALSE, FALSE>>, <<TRUE, TRUE>>}" if t == "quick" else "{<<FALSE, FALSE>>, <<TRUE, FALSE>>, <<FALSE, TRUE>>}"
     mc = "\n".join(["---- MODULE PreserveMC ----", "EXTENDS Preserve", f"MC_Flags == {flags}", "====", ""])
     cfg = "\n".join(["CONSTANTS", f"  Kinds = {kinds}", f"  Styles = {styles}", "  MaxDefs = 2", "  Flags <- MC_Flags",
-                     '  Forms = {"direct", "fromimport", "modattr", "alias"}', "INIT InitP", "NEXT NextP", "INVARIANT PromiseIsExactlyP",
+                     '  Forms = {"direct", "fromimport", "modattr", "alias", "fromalias", "star"}', "INIT InitP", "NEXT NextP", "INVARIANT PromiseIsExactlyP",
                      "INVARIANT DumpP", "CHECK_DEADLOCK FALSE", ""])
     res = run_tlc("PreserveMC", cfg, generated_files={"PreserveMC.tla": mc}, timeout_s=3000, keep_stdout=False, heap_gb=12)
     rep.add_tlc(res, "Preserve")
